@@ -31,6 +31,13 @@ def gen_ops():
     # fails inside an if body / an elif condition, after assigning top-level variables
     add("run_err_in_if", 'z = 1\nmessage = "shadow"\nif z == 1 {\nzz = 2\nif true { q = 1 + nil }\n}\nprobe(9)', pt=STD_PT)
     add("run_err_in_cond", 'y1 = 1\nfb = 0\nfor ; y1 + nil; { }\nprobe(9)', pt=STD_PT)
+    # the same grok text under different local definitions of the alias it names, and with no definition at all
+    add("run_grok_digits", 'add_pattern("hw", "\\\\d+")\nok = grok(fs, "%{hw:w}")\nprobe(ok, w)', pt={"meas": "m", "tags": {}, "fields": {"fs": "abc 123"}})
+    add("run_grok_letters", 'add_pattern("hw", "[a-c]+")\nok = grok(fs, "%{hw:w}")\nprobe(ok, w)', pt={"meas": "m", "tags": {}, "fields": {"fs": "abc 123"}})
+    add("check_err_grok", 'ok = grok(fs, "%{hw:w}")\nprobe(ok, w)', pt={"meas": "m", "tags": {}, "fields": {"fs": "abc 123"}})
+    # sql_cover on subjects whose reading depends on how backslashes in string literals are treated
+    add("run_sql_bs1", "sql_cover(fs)\nprobe(fs)", pt={"meas": "m", "tags": {}, "fields": {"fs": "SELECT * FROM files WHERE dir = 'C:\\tmp\\'"}})
+    add("run_sql_bs2", "sql_cover(fs)\nprobe(fs)", pt={"meas": "m", "tags": {}, "fields": {"fs": "SELECT * FROM files WHERE dir = 'C:\\tmp\\' AND owner = 'bob' -- it's a comment"}})
     # reads every name an earlier script assigned (they must all be the point's keys or nil here)
     add("run_ok", 'probe(r, x, k, c, kb, nf, t2, lvl, l, w, q, i, v, ev, cv, z, zz, y1)\nadd_key(r, "second")\nprobe(fi, fs, tg, fb, message, _)', pt=STD_PT)
     return ops
